@@ -320,6 +320,80 @@ theorem append_unequal (o : Oracle) (a b : S) (ps ra rb : List Row)
     (S.append a b).sample o ps = .error .shape := by
   simp [S.sample, ha, hb, bind, Except.bind, appendRows, hne]
 
+/-! ## which parameter row a row carries -/
+
+theorem base_joinPt (c : Point) (ρ : Row) : (joinPt c ρ).base = ρ.base := by
+  induction c with
+  | nil => rfl
+  | cons p c ih => simpa [joinPt, Row.base] using ih
+
+theorem map_base_zipWith (pts : List Point) : ∀ (reps : List Row), pts.length = reps.length →
+    (List.zipWith joinPt pts reps).map Row.base = reps.map Row.base := by
+  induction pts with
+  | nil => intro reps h; cases reps <;> simp_all
+  | cons p pts ih =>
+    intro reps h
+    cases reps with
+    | nil => simp at h
+    | cons r reps =>
+      simp only [List.zipWith_cons_cons, List.map_cons, base_joinPt]
+      rw [ih reps (by simpa using h)]
+
+theorem map_repeatParams (f : Row → Row) (ps : List Row) (n : Nat) :
+    (repeatParams ps n).map f = repeatParams (ps.map f) n := by
+  induction ps with
+  | nil => simp [repeatParams]
+  | cons p ps ih =>
+    simp only [repeatParams, List.flatMap_cons, List.map_append, List.map_replicate, List.map_cons] at ih ⊢
+    rw [ih]
+
+/-- RandomUniformSampler with n points and k >= 1 parameter rows: the parameter row carried by the
+    rows is `repeat_interleave(params, n)` -/
+theorem rows_carry_partial_uniform (o : Oracle) (d : Dom) (n : Nat) (ps rows : List Row) (hk : ps ≠ []) (hn : 0 < n)
+    (h : leafSample o .uniform d n false ps = .ok rows) :
+    rows.map Row.base = repeatParams (ps.map Row.base) n := by
+  simp only [leafSample, joinRows] at h
+  split at h
+  · rename_i he
+    have : repeatParams ps n = [] := by simpa using he
+    have hl := repeatParams_length ps n
+    rw [this] at hl
+    have : 0 < ps.length * n := Nat.mul_pos (List.length_pos_iff.mpr hk) hn
+    simp at hl; omega
+  · split at h
+    · rename_i hl; cases h
+      rw [map_base_zipWith _ _ hl, map_repeatParams]
+    · cases h
+/-- "rows i*n .. i*n+n-1 carry parameter row i unchanged" -/
+theorem row_carries_partial_uniform (o : Oracle) (d : Dom) (n : Nat) (ps rows : List Row) (hn : 0 < n)
+    (h : leafSample o .uniform d n false ps = .ok rows) (i j : Nat) (hi : i < ps.length) (hj : j < n) :
+    (rows[i * n + j]?).map Row.base = (ps[i]?).map Row.base := by
+  have hk : ps ≠ [] := by intro e; simp [e] at hi
+  have hc := rows_carry_partial_uniform o d n ps rows hk hn h
+  have := congrArg (fun l => l[i * n + j]?) hc
+  simp only [List.getElem?_map] at this
+  rw [this, repeatParams_getElem _ n i j (by simpa using hi) hj, List.getElem?_map]
+
+
+/-- DataSampler with k >= 1 parameter rows: stored data tiled, parameters `repeat_interleave`d -/
+theorem rows_carry_partial_data (v : Var) (id m : Nat) (ps rows : List Row) (hk : ps ≠ []) (hm : 0 < m)
+    (h : dataSample v id m ps = .ok rows) : rows.map Row.base = repeatParams (ps.map Row.base) m := by
+  have hne : ps.isEmpty = false := by cases ps <;> simp_all
+  unfold dataSample at h
+  simp only [hne, Bool.false_eq_true, if_false] at h
+  unfold joinRows at h
+  split at h
+  · rename_i he
+    have : repeatParams ps m = [] := by simpa using he
+    have hl := repeatParams_length ps m
+    rw [this] at hl
+    have : 0 < ps.length * m := Nat.mul_pos (List.length_pos_iff.mpr hk) hm
+    simp at hl; omega
+  · split at h
+    · rename_i hl; cases h
+      rw [map_base_zipWith _ _ hl, map_repeatParams]
+    · cases h
+
 /-! ## non-vacuity and negative results -/
 
 def o0 : Oracle := { choose := fun i => i % 2 == 0, acc := fun r i => (r + i) % 3 != 0, fuel := 8 }
@@ -354,5 +428,40 @@ theorem move_length_4_2 :
     without parameters it returned no point at all, for every pair of operands -/
 theorem boolN1Old_no_rows (o : Nat → Bool) (a b : Dom) : (boolSampleN1Old o a b []).length = 0 := by
   simp [boolSampleN1Old]
+
+example : ∃ rows, leafSample o0 .uniform (.prim "x" 1 ["t"]) 3 false pT = .ok rows ∧
+    (rows[1 * 3 + 2]?).map Row.base = some (.ext 1 ["t"]) := by
+  refine ⟨_, rfl, ?_⟩
+  decide +kernel
+
+/-! ## full-strength statements that are not proved for every sampler expression
+
+  Both are decided on every run for the real code by the correspondence and the oracles; as theorems
+  only the parts above (`rows_carry_partial_*`) exist.  Missing: the per-row-loop kinds (`perRow`,
+  `flatMap forRow`) need the same carry lemma, and pairing needs reflexivity/monotonicity lemmas of
+  `Row.sub` over the mutual `Row`/`Pt` types. -/
+
+def S.sumFree : S → Bool
+  | .leaf _ _ _ _ => true
+  | .data _ _ _ => true
+  | .prod a b => a.sumFree && b.sumFree
+  | .sum _ _ => false
+  | .append a b => a.sumFree && b.sumFree
+  | .static s => s.sumFree
+
+/-- rows `i*len .. (i+1)*len-1` of every sum-free sampler expression carry parameter row `i` -/
+def C02_full_carry : Prop :=
+  ∀ (o : Oracle) (s : S) (ps rows : List Row), s.pos → s.sumFree = true → ps ≠ [] →
+    s.sample o ps = .ok rows → rows.map Row.base = repeatParams (ps.map Row.base) s.len
+
+/-- every point of every returned row was made for (a part of) the row it is joined with -/
+def C02_full_pairing : Prop :=
+  ∀ (o : Oracle) (s : S) (ps rows : List Row), s.pos → (∀ ρ ∈ ps, ρ.paired = true) →
+    s.sample o ps = .ok rows → ∀ r ∈ rows, r.paired = true
+
+/-- the pairing statement holds on the composite example (3 parameter rows, 60 rows): evaluated, not proved in general -/
+example : (match sEx.sample o0 pT with | .ok rows => rows.all Row.paired | .error _ => false) = true := by
+  decide +kernel
+
 
 end TPV.Sampler
